@@ -14,6 +14,7 @@ MOD = 'props.C11_seed'
 GRIDS = {
     # 3-level slices; extents chosen so that level 0 has several tiles
     'f2': dict(bbox=(0.0, 0.0, 1024000.0, 768000.0), res=[4000.0, 2000.0, 1000.0], tile_size=(256, 256), origin='ll'),
+    'f2w': dict(bbox=(0.0, 0.0, 2048000.0, 1536000.0), res=[4000.0, 2000.0, 1000.0], tile_size=(256, 256), origin='ll'),
     'irr': dict(bbox=(0.0, 0.0, 1000000.0, 700000.0), res=[1000.0, 400.0, 150.0], tile_size=(256, 256), origin='ul'),
     'sqrt2': dict(bbox=(0.0, 0.0, 1024000.0, 1024000.0), res=[4000.0, 2828.42712474619, 2000.0], tile_size=(256, 256), origin='ll'),
     'nonsq': dict(bbox=(-50000.0, 20000.0, 462000.0, 276000.0), res=[500.0, 250.0, 125.0], tile_size=(256, 128), origin='ll'),
@@ -76,7 +77,13 @@ class SeedWalk(Harness):
         levels = cfg['levels']
         meta = cfg['meta']
         tl = cfg['target_level']
-        c = [real_var(n) for n in ('cx0', 'cy0', 'cx1', 'cy1')]
+        if cfg.get('lattice'):
+            # coverage corners on a coarse lattice: exact in doubles, so a model replays bit-identically
+            # (offset 3.5: never exactly on a tile edge or inset boundary, where the relaxed rounding
+            # model of tile_bbox could decide a tie differently from IEEE doubles)
+            c = [int_var(n) * cfg['lattice'] + 3.5 for n in ('cx0', 'cy0', 'cx1', 'cy1')]
+        else:
+            c = [real_var(n) for n in ('cx0', 'cy0', 'cx1', 'cy1')]
         deepx = G.resolution(levels[-1]) * G.tile_size[0] * meta[0]
         deepy = G.resolution(levels[-1]) * G.tile_size[1] * meta[1]
         w = cfg.get('width', 1.5)
@@ -193,9 +200,10 @@ class Interruption(Harness):
 
 
 CANARIES = [
-    ('limit_sub_bbox takes the union', 'SeedWalk', {'mapproxy.seed.util': [(
-        "    minx = max(bbox[0], sub_bbox[0])", "    minx = min(bbox[0], sub_bbox[0])")]},
-     dict(grid='irr', levels=[0, 1, 2], meta=[1, 1], target_level=2)),
+    ('meta-level tile iteration drops the last column', 'SeedWalk', {'mapproxy.grid': [(
+        "        x1 = x1//meta_size[0] * meta_size[0]\n        y0 = y0//meta_size[1] * meta_size[1]",
+        "        x1 = x0\n        y0 = y0//meta_size[1] * meta_size[1]")]},
+     dict(grid='f2', levels=[0, 1], meta=[1, 1], target_level=1)),
     ('subtiles that only intersect are dropped', 'SeedWalk', {'mapproxy.seed.seeder': [(
         "        if self.coverage.intersects(bbox, self.grid.srs):\n            return INTERSECTS\n        return NONE\n\n\nclass CleanupTask",
         "        return NONE\n\n\nclass CleanupTask")]},
@@ -216,24 +224,33 @@ def obligations(tier, seed):
     specs = []
     cfgs = []
     for gname in GRIDS:
-        cfgs.append(dict(grid=gname, levels=[0, 1], meta=[1, 1], target_level=1))
-        cfgs.append(dict(grid=gname, levels=[0, 1], meta=[2, 2], target_level=1))
+        if gname == 'f2w':
+            continue
+        heavy = gname == 'irr'
+        if tier == 'thorough' or not heavy:
+            cfgs.append(dict(grid=gname, levels=[0, 1], meta=[1, 1], target_level=1))
+            cfgs.append(dict(grid=gname, levels=[0, 1], meta=[2, 2], target_level=1))
+        else:
+            cfgs.append(dict(grid=gname, levels=[0, 1], meta=[1, 1], target_level=1, width=0.8))
         if tier == 'thorough':
-            cfgs.append(dict(grid=gname, levels=[0, 1, 2], meta=[2, 2], target_level=2))
-            cfgs.append(dict(grid=gname, levels=[0, 2], meta=[2, 2], target_level=2))
-            cfgs.append(dict(grid=gname, levels=[2], meta=[1, 1], target_level=2, width=1.2))
-            cfgs.append(dict(grid=gname, levels=[0, 1], meta=[1, 1], target_level=1, skip_geoms=1))
+            if not heavy:
+                cfgs.append(dict(grid=gname, levels=[0, 1, 2], meta=[2, 2], target_level=2))
+            cfgs.append(dict(grid=gname, levels=[0, 2], meta=[2, 2], target_level=2, width=1.0 if heavy else 1.5))
+            cfgs.append(dict(grid=gname, levels=[2], meta=[1, 1], target_level=2, width=1.0))
+            cfgs.append(dict(grid=gname, levels=[0, 1], meta=[1, 1], target_level=1, skip_geoms=1, width=1.0))
     if tier != 'thorough':
         cfgs.append(dict(grid='f2', levels=[0, 2], meta=[2, 2], target_level=2))
-        cfgs.append(dict(grid='irr', levels=[0, 1, 2], meta=[2, 2], target_level=2, width=1.2))
+        cfgs.append(dict(grid='f2', levels=[0, 1, 2], meta=[2, 2], target_level=2, width=1.2))
     for c in cfgs:
-        name = 'seed-walk/%s/L%s/m%dx%d%s' % (c['grid'], '-'.join(map(str, c['levels'])), c['meta'][0], c['meta'][1], '/skipgeoms' if c.get('skip_geoms') else '')
+        name = 'seed-walk/%s/L%s/m%dx%d%s/w%s' % (c['grid'], '-'.join(map(str, c['levels'])), c['meta'][0], c['meta'][1],
+                                                   '/skipgeoms' if c.get('skip_geoms') else '', c.get('width', 1.5))
         specs.append(spec(MOD, 'SeedWalk', name, cfg=c, cost=60 * len(c['levels']) ** 2))
     # known finding: overlaps smaller than 0.1 px of a coarse level are pruned with their whole subtree
-    specs.append(spec(MOD, 'SeedWalk', 'seed-walk-coarse-inset/f2/L0-1-2/m1x1', kind='finding', finding_key='C11-coarse-level-inset',
-                      cfg=dict(grid='f2', levels=[0, 1, 2], meta=[1, 1], target_level=2, eps_level=2, width=1.2), cost=100))
-    for c in ([dict(grid='f2', levels=[0, 1], meta=[1, 1], target_level=1), dict(grid='irr', levels=[0, 1], meta=[2, 2], target_level=1)] +
-              ([dict(grid='f2', levels=[0, 1, 2], meta=[2, 2], target_level=2, width=1.2)] if tier == 'thorough' else [])):
+    specs.append(spec(MOD, 'SeedWalk', 'seed-walk-coarse-inset/f2w/L0-1-2/m1x1', kind='finding', finding_key='C11-coarse-level-inset',
+                      cfg=dict(grid='f2w', levels=[0, 1, 2], meta=[1, 1], target_level=2, eps_level=2, width=1.2, lattice=10), cost=100))
+    for c in ([dict(grid='f2', levels=[0, 1], meta=[1, 1], target_level=1), dict(grid='sqrt2', levels=[0, 1], meta=[2, 2], target_level=1)] +
+              ([dict(grid='f2', levels=[0, 1, 2], meta=[2, 2], target_level=2, width=1.2),
+                dict(grid='nonsq', levels=[0, 1], meta=[1, 1], target_level=1, width=1.0)] if tier == 'thorough' else [])):
         name = 'interruption/%s/L%s/m%dx%d' % (c['grid'], '-'.join(map(str, c['levels'])), c['meta'][0], c['meta'][1])
         specs.append(spec(MOD, 'Interruption', name, cfg=c, cost=200))
     for f in ('can_skip_spec', 'can_skip_never_skips_ancestor'):
